@@ -1,68 +1,85 @@
-//! C14 — SRTP-mandatory transports emit and accept nothing before keys exist (child module of transports/rtp.rs).
-//! the async send operations are polled once from a stack pin (they complete at the gate without awaiting); the body of the #[async_trait]
-//! `receive` is lifted verbatim into `RtpTransport::verif_receive`.
+//! C14 — SRTP-mandatory transports: nothing leaves or is accepted before keys exist, and with keys what leaves is the
+//! output of protect_* (child module of transports/rtp.rs). The async send operations are polled once from a stack
+//! pin; the body of the #[async_trait] `receive` is lifted verbatim into `RtpTransport::verif_receive`; every hand-off
+//! of an outgoing datagram to the ICE connection is cut and replaced by the recording wire tap `vw::tap_res`.
 #![allow(dead_code, unused_imports, unused_variables, unused_mut)]
 use super::*;
 #[path = "../common/vutil.rs"]
 mod vutil;
 use vutil::*;
 use crate::rtp::{PictureLossIndication, RtpHeader};
-use crate::transports::ice::IceSocketWrapper;
+use crate::srtp::{SrtpKeyingMaterial, SrtpProfile, SrtpSession};
+use crate::vw::{tap_count, tap_last};
 
 fn rnd32() -> u32 { kani::any() }
+fn now_stub() -> std::time::Instant { unsafe { core::mem::transmute::<(i64, u32), std::time::Instant>((1000, 0)) } }
 
-/// transport over a live (model) UDP socket that records every datagram handed to it
-fn wired(srtp_required: bool) -> (RtpTransport, Arc<tokio::net::UdpSocket>) {
-    let sock = Arc::new(tokio::net::UdpSocket::model(SocketAddr::from(([10, 0, 0, 9], 9000))));
-    let (tx, rx) = tokio::sync::watch::channel(Some(IceSocketWrapper::Udp(sock.clone())));
+fn transport(srtp_required: bool) -> RtpTransport {
+    let (tx, rx) = tokio::sync::watch::channel(None);
     leak(tx);
-    let conn = IceConn::new(rx, SocketAddr::from(([10, 0, 0, 1], 1000)), None);
-    (RtpTransport::new(conn, srtp_required), sock)
+    RtpTransport::new(IceConn::new(rx, SocketAddr::from(([10, 0, 0, 1], 1000)), None), srtp_required)
 }
-fn wire_count(s: &tokio::net::UdpSocket) -> usize { unsafe { (*s.sent.get()).len() } }
+fn pli() -> [RtcpPacket; 1] { [RtcpPacket::PictureLossIndication(PictureLossIndication { sender_ssrc: kani::any(), media_ssrc: kani::any() })] }
+fn rtp(pt: u8) -> RtpPacket { RtpPacket::new(RtpHeader::new(pt, kani::any(), kani::any(), kani::any()), vec![kani::any(), kani::any()]) }
 
 // @h name=vc14_send_ops_without_keys tier=quick timeout=1200
 // @fn RtpTransport::send, RtpTransport::send_rtp, RtpTransport::send_rtcp, RtpTransport::send_rtcp_sync
 // @stub std::sync::Weak::upgrade -> sequential
-// @bound transport with srtp_required = true, no SRTP session installed, connected to a live (recording) UDP socket; one send operation chosen symbolically: raw send of 14 symbolic bytes, send_rtp of a packet with symbolic header and 2 payload bytes, send_rtcp / close-time send_rtcp_sync of a PLI with symbolic SSRCs
-// @oracle nothing reaches the socket, and the three fallible operations report an error: no RTP or RTCP leaves in clear before keys exist
+// @bound transport with srtp_required = true, no SRTP session installed; one send operation chosen symbolically: raw send of 14 symbolic bytes, send_rtp of a packet with symbolic header and 2 payload bytes, send_rtcp / close-time send_rtcp_sync of a PLI with symbolic SSRCs
+// @oracle nothing is handed to the connection (wire tap empty), and the three fallible operations report an error: no RTP or RTCP leaves in clear before keys exist
 #[kani::proof]
 #[kani::unwind(6)]
 #[kani::stub(std::backtrace::Backtrace::capture, bt_stub)]
 #[kani::stub(std::sync::Weak::upgrade, weak_upgrade_seq)]
 fn vc14_send_ops_without_keys() {
-    let (t, sock) = wired(true);
+    let t = transport(true);
     let op: u8 = kani::any(); kani::assume(op < 4);
     match op {
         0 => { let mut b: [u8; 14] = kani::any(); b[0] = 0x80; let r = poll_once(t.send(&b)); assert!(matches!(r, Some(Err(_))), "raw send succeeded without an SRTP session"); leak(r); }
-        1 => { let pt: u8 = kani::any(); kani::assume(pt < 128);
-               let p = RtpPacket::new(RtpHeader::new(pt, kani::any(), kani::any(), kani::any()), vec![kani::any(), kani::any()]);
-               let r = poll_once(t.send_rtp(p)); assert!(matches!(r, Some(Err(_))), "send_rtp succeeded without an SRTP session"); leak(r); }
-        2 => { let pli = [RtcpPacket::PictureLossIndication(PictureLossIndication { sender_ssrc: kani::any(), media_ssrc: kani::any() })];
-               let r = poll_once(t.send_rtcp(&pli)); assert!(matches!(r, Some(Err(_))), "send_rtcp succeeded without an SRTP session"); leak(r); }
-        _ => { let pli = [RtcpPacket::PictureLossIndication(PictureLossIndication { sender_ssrc: kani::any(), media_ssrc: kani::any() })];
-               t.send_rtcp_sync(&pli); }
+        1 => { let pt: u8 = kani::any(); kani::assume(pt < 128); let r = poll_once(t.send_rtp(rtp(pt))); assert!(matches!(r, Some(Err(_))), "send_rtp succeeded without an SRTP session"); leak(r); }
+        2 => { let p = pli(); let r = poll_once(t.send_rtcp(&p)); assert!(matches!(r, Some(Err(_))), "send_rtcp succeeded without an SRTP session"); leak(r); }
+        _ => { let p = pli(); t.send_rtcp_sync(&p); }
     }
-    assert!(wire_count(&sock) == 0, "a datagram was emitted in clear before SRTP keys exist");
+    assert!(tap_count() == 0, "a datagram was emitted in clear before SRTP keys exist");
     kani::cover!(op == 1); kani::cover!(op == 3);
     leak(t);
 }
 
-// @h name=vc14_plain_mode_still_sends tier=experimental timeout=1200
-// @fn RtpTransport::send_rtcp_sync
-// @bound the same transport with srtp_required = false (plain RTP mode), no session; close-time send_rtcp_sync of a PLI
-// @oracle exactly one datagram reaches the socket (liveness witness: the recording socket and the send path of the previous harness are real)
+// @h name=vc14_send_rtp_twice_without_keys tier=quick timeout=1200
+// @fn RtpTransport::send_rtp
+// @bound SRTP-mandatory transport without session; send_rtp called twice with symbolic packets
+// @oracle both calls fail and nothing is handed to the connection: the readiness gate holds for every packet, not only the first (seeded change C14-B)
 #[kani::proof]
 #[kani::unwind(6)]
 #[kani::stub(std::backtrace::Backtrace::capture, bt_stub)]
 #[kani::stub(std::sync::Weak::upgrade, weak_upgrade_seq)]
-fn vc14_plain_mode_still_sends() {
-    let (t, sock) = wired(false);
-    let pli = [RtcpPacket::PictureLossIndication(PictureLossIndication { sender_ssrc: 1, media_ssrc: kani::any() })];
-    t.send_rtcp_sync(&pli);
-    assert!(wire_count(&sock) == 1, "plain mode did not send");
+fn vc14_send_rtp_twice_without_keys() {
+    let t = transport(true);
+    let r1 = poll_once(t.send_rtp(rtp(96)));
+    assert!(matches!(r1, Some(Err(_))));
+    let r2 = poll_once(t.send_rtp(rtp(96)));
+    assert!(matches!(r2, Some(Err(_))), "second send_rtp before keys was accepted");
+    assert!(tap_count() == 0, "a datagram was emitted in clear before SRTP keys exist");
     kani::cover!(true, "reached");
-    leak(t);
+    leak(r1); leak(r2); leak(t);
+}
+
+// @h name=vc14_plain_mode_sends tier=quick timeout=1200
+// @fn RtpTransport::send
+// @bound the same transport with srtp_required = false (plain RTP mode), no session; raw send of 14 symbolic bytes
+// @oracle the datagram is handed over unchanged (liveness witness for the wire tap and for the gate of vc14_send_ops_without_keys: the only difference between the two runs is the srtp_required flag)
+#[kani::proof]
+#[kani::unwind(20)]
+#[kani::stub(std::backtrace::Backtrace::capture, bt_stub)]
+#[kani::stub(std::sync::Weak::upgrade, weak_upgrade_seq)]
+fn vc14_plain_mode_sends() {
+    let t = transport(false);
+    let mut b: [u8; 14] = kani::any(); b[0] = 0x80;
+    let r = poll_once(t.send(&b));
+    assert!(matches!(r, Some(Ok(14))), "plain mode did not send");
+    assert!(tap_count() == 1 && tap_last().map(|v| same(v, &b)).unwrap_or(false));
+    kani::cover!(true, "reached");
+    leak(r); leak(t);
 }
 
 // @h name=vc14_receive_without_keys tier=quick timeout=1500
@@ -74,7 +91,7 @@ fn vc14_plain_mode_still_sends() {
 #[kani::stub(std::backtrace::Backtrace::capture, bt_stub)]
 #[kani::stub(std::sync::Weak::upgrade, weak_upgrade_seq)]
 fn vc14_receive_without_keys() {
-    let (t, sock) = wired(true);
+    let t = transport(true);
     let (rtp_tx, mut rtp_rx) = mpsc::channel::<(RtpPacket, SocketAddr)>(4);
     let (rtcp_tx, mut rtcp_rx) = mpsc::channel::<Vec<RtcpPacket>>(4);
     let s: u32 = kani::any();
@@ -86,35 +103,67 @@ fn vc14_receive_without_keys() {
     t.verif_receive(Bytes::copy_from_slice(&b), SocketAddr::from(([10, 0, 0, 1], 1000)), &mut mb);
     assert!(rtp_rx.try_recv().is_err(), "inbound RTP delivered without an SRTP session in an SRTP-mandatory mode");
     assert!(rtcp_rx.try_recv().is_err(), "inbound RTCP delivered without an SRTP session in an SRTP-mandatory mode");
-    assert!(t.received_rtp_packets() == 0 && wire_count(&sock) == 0);
+    assert!(t.received_rtp_packets() == 0 && tap_count() == 0);
     kani::cover!(b[1] == 200, "RTCP class");
     kani::cover!(b[1] == 96, "RTP class");
     leak(t); leak(rtp_rx); leak(rtcp_rx);
 }
 
-// @h name=vc14_bridge_target_without_keys tier=experimental timeout=1500
+// @h name=vc14_bridge_gate_target tier=experimental timeout=1500
 // @fn RtpTransport::try_bridge_rewrite_rtp, RewriteBridge::rewrite_packet
 // @stub stun::random_u32 -> any
-// @bound source transport (plain) with a rewrite bridge whose target transport is SRTP-mandatory and has no session yet; one RTP packet with symbolic header through the bridge fast path
-// @oracle the packet is consumed (not handed to local listeners) and nothing reaches the target's socket: the bridge never forwards cleartext to a target that requires SRTP
+// @bound plain source leg (srtp_required = false) with a rewrite bridge to a target leg that is SRTP-mandatory and has no session yet; one RTP packet with symbolic header through the bridge fast path
+// @oracle the packet is consumed, dropped on account of the TARGET's requirement (its no-session counter moves) and nothing is handed to the target's connection: cleartext is never pushed towards an SRTP-mandatory leg without keys (seeded change C14-A consulted the source leg's flag)
 #[kani::proof]
 #[kani::unwind(6)]
 #[kani::stub(std::backtrace::Backtrace::capture, bt_stub)]
 #[kani::stub(std::sync::Weak::upgrade, weak_upgrade_seq)]
 #[kani::stub(crate::transports::ice::stun::random_u32, rnd32)]
-fn vc14_bridge_target_without_keys() {
-    let (src, _s1) = wired(false);
-    let (dst, dsock) = wired(true);
-    let dst = Arc::new(dst);
+fn vc14_bridge_gate_target() {
+    let src = transport(false);
+    let dst = Arc::new(transport(true));
     let rule = RtpRewriteRule { match_payload_type: None, fixed_out_ssrc: None, ssrc_offset: kani::any(), out_payload_type: None, sdes_mid_extension_id: None, sdes_mid: None };
     *src.rewrite_bridge.lock() = Some(Box::new(RewriteBridge::new(dst.clone(), None, HashSet::new(), RtpRewriteBridgeOptions::default(), vec![rule])));
     src.has_bridge.store(true, Ordering::Release);
     let pt: u8 = kani::any(); kani::assume(pt < 128);
-    let p = RtpPacket::new(RtpHeader::new(pt, kani::any(), kani::any(), kani::any()), vec![kani::any()]);
     let mut mb = Vec::new();
-    let r = src.try_bridge_rewrite_rtp(p, &mut mb);
+    let r = src.try_bridge_rewrite_rtp(rtp(pt), &mut mb);
     assert!(r.is_none(), "bridged packet fell through to local delivery");
-    assert!(wire_count(&dsock) == 0, "the bridge forwarded cleartext to an SRTP-mandatory target without keys");
+    assert!(tap_count() == 0, "the bridge forwarded cleartext to an SRTP-mandatory target without keys");
+    assert!(dst.srtp_dropped_no_session.load(Ordering::Relaxed) == 1, "packet not dropped on account of the target's SRTP requirement");
     kani::cover!(true, "reached");
     leak(r); leak(src); leak(dst);
+}
+
+fn session(key: [u8; 16], salt: [u8; 14]) -> SrtpSession {
+    let km = || SrtpKeyingMaterial { master_key: key.to_vec(), master_salt: salt.to_vec() };
+    SrtpSession::new(SrtpProfile::Aes128Sha1_80, km(), km()).unwrap()
+}
+
+// @h name=vc14_send_rtp_with_keys tier=experimental timeout=1500
+// @fn RtpTransport::start_srtp, RtpTransport::send_rtp, SrtpSession::protect_rtp
+// @stub std::time::Instant::now -> fixed instant
+// @bound SRTP-mandatory transport with a session (AES_CM_128_HMAC_SHA1_80, symbolic key/salt) installed; send_rtp of a packet with symbolic sequence number, timestamp, SSRC and 2 payload bytes
+// @oracle exactly one datagram is handed over and it is byte-for-byte what an independent SRTP context with the same keys produces for that packet (with the marker bit the transport sets on its first packet): never the marshalled plaintext; length = 12 + 2 + 10
+#[kani::proof]
+#[kani::unwind(48)]
+#[kani::stub(std::backtrace::Backtrace::capture, bt_stub)]
+#[kani::stub(std::sync::Weak::upgrade, weak_upgrade_seq)]
+#[kani::stub(std::time::Instant::now, now_stub)]
+fn vc14_send_rtp_with_keys() {
+    let key: [u8; 16] = kani::any(); let salt: [u8; 14] = kani::any();
+    let t = transport(true);
+    t.start_srtp(session(key, salt));
+    let p = rtp(96);
+    let mut expect_pkt = p.clone(); expect_pkt.header.marker = true;
+    let r = poll_once(t.send_rtp(p));
+    assert!(matches!(r, Some(Ok(24))), "send_rtp with keys failed");
+    assert!(tap_count() == 1);
+    let mut reference = session(key, salt);
+    let mut want = vec![0u8; 24];
+    assert!(reference.protect_rtp(&expect_pkt, &mut want).is_ok());
+    let got = tap_last().unwrap();
+    assert!(same(got, &want), "the datagram handed to the connection is not the SRTP-protected packet");
+    kani::cover!(true, "reached");
+    leak(r); leak(t); leak(reference); leak(want);
 }
